@@ -76,3 +76,33 @@ def run(ctx):
                     okh = has_all(ctx.leaves(u.expr_rvalue(st["r"], (), b, 0)), ["call:*BlockRanges::head", "call:lumina_node::store::Store::get_stored_header_ranges"])
         ctx.check(okq, "C34.queue", u.path, "queue = stored - sampled - timed_out - ongoing - will_be_pruned", key="C34.queue")
         ctx.check(okh, "C34.head", u.path, "head_height = stored.head()", key="C34.head")
+
+    # promises made to the pruner outlive connections: `will_be_pruned` only ever grows, through the
+    # grant in on_want_to_prune. No function of the daser assigns the field (a reset next to the resets of
+    # queue / ongoing / timed_out forgets the promises) or mutates it by anything but insert_relaxed.
+    from engine.mir import std_tail as _tail
+    from engine.rules import root_fn as _root
+    nw = 0
+    for p in ctx.facts.paths("lumina_node"):
+        if not p.startswith((D, "<" + D)):
+            continue
+        wb = ctx.fn(p)
+        wb.defs()
+        for b in sorted(wb.reachable_from([0])):
+            for i, st in enumerate(wb.stmts(b)):
+                pr = norm_proj(st["d"].get("p"))
+                if pr and pr[-1] == "will_be_pruned":
+                    nw += 1
+                    ctx.violate("C34.promises.kept", wb.path, "will_be_pruned is assigned (promises to the pruner are forgotten)", site=wb.loc(b, i), key="C34.promises.kept|assign|" + _root(wb.path))
+            t = wb.blocks[b]["t"]
+            if t["k"] == "call" and "f" in t and t["args"]:
+                a0 = t["args"][0]
+                pl = a0.get("mv") or a0.get("cp")
+                if pl and not pl.get("p") and pl["l"] in wb.mutref:
+                    base, proj, _x = wb.mutref[pl["l"]]
+                    names = [x for x in (proj or ()) if isinstance(x, str) and x != "*"]
+                    if names and names[-1] == "will_be_pruned":
+                        nw += 1
+                        nm = t.get("rf") or t["f"]
+                        ctx.check(nm.endswith("BlockRanges::insert_relaxed"), "C34.promises.kept", wb.path, "will_be_pruned is only extended (insert_relaxed), found %s" % nm.rsplit("::", 2)[-1], site=wb.loc(b), key="C34.promises.kept|call|%s|%s" % (_root(wb.path), nm.rsplit("::", 1)[-1]))
+    ctx.floor("C34.promises.sites", "mutation sites of will_be_pruned", nw, 1)
